@@ -500,7 +500,7 @@ func keysOf(m map[string]bool) []string {
 }
 
 var dFilters = []string{"a", "b", "a/b", "a/#", "a/+", "+", "+/b", "#", "b/#", "cc/+/a"}
-var dTopics = []string{"a", "b", "a/b", "a/b/cc", "b/b", "cc/x/a", "cc"}
+var dTopics = []string{"a", "b", "a/b", "a/b/cc", "b/b", "cc/x/a", "cc", "$SYS/x"} // the last one reaches no callback, but is acknowledged like any other
 
 func genDispatch(t *rapid.T, q2heavy bool) DCase {
 	var c DCase
